@@ -26,6 +26,7 @@ ASSUMPTIONS = [
 ]
 
 RULES = {
+    "C01.SCAN": "Pending is returned only after the scan covered every child (whole rotation / range / container / key set) and a Pending child continues the scan: no recorded wake-up is left behind unpolled",
     "C01.DONE": "after a child's result the family's completion test (counter == 0 / == len, all slots ready, all inputs ended) is evaluated before Pending can be returned",
     "C01.REG": "every child poll and every Poll::Pending value in a sub-waker poll body is dominated by set_waker(cx.waker()) with cx the caller's context",
     "C01.ROUTE": "each child-poll site passes the caller's cx (race, race_ok, chain, wait_until, adapter futures) or Context::from_waker(wakers.get(i)) with i the polled child's own index",
@@ -62,6 +63,8 @@ def run(ctx):
             rule_route_pass(ctx, u)
         for u in units:
             rule_done(ctx, M, u)
+        for u in units + pts:
+            rule_scan(ctx, M, u)
         rule_insert_arm(ctx, M)
         rule_handout(ctx, M, units)
         rule_parent_kept(ctx, M)
@@ -82,6 +85,7 @@ def run(ctx):
         ctx.floor("C01.REG", cfg, len(units))
         ctx.floor("C01.ROUTE", cfg, n_tuple + n_arr + n_grp + 3 * 78)
         ctx.floor("C01.TOKEN", cfg, 4 * 12 + n_arr + n_grp)
+        ctx.floor("C01.SCAN", cfg, 552 if cfg == "core" else 560)
         ctx.floor("C01.REARM", cfg, 78 + (1 if cfg == "core" else 2) + 12 + (1 if cfg == "core" else 2))
         if std:
             ctx.floor("C01.LOCK", cfg, n_tuple + n_arr + n_grp)
@@ -141,6 +145,20 @@ def rule_route_pass(ctx, u):
             ctx.fail("C01.ROUTE", u.where, "%s [%s] polled with %s instead of the caller's context" % (c.label, c.param, short(c.ctx)), site=c.where)
 
 
+def _only_call_defs(body, l):
+    n = 0
+    for b in sorted(body.reachable):
+        if body.is_cleanup(b):
+            continue
+        for s in body.stmts(b):
+            if s["k"] == "assign" and s["lhs"]["l"] == l and not s["lhs"]["p"]:
+                return False
+        t = body.term(b)
+        if t["k"] == "call" and t["dest"]["l"] == l and not t["dest"]["p"]:
+            n += 1
+    return n > 0
+
+
 def rule_lock(ctx, u):
     body = u.body
     tracked = scan.guard_locals(body)
@@ -154,6 +172,36 @@ def rule_lock(ctx, u):
         else:
             ctx.ok("C01.LOCK", u.where, "no readiness guard live at poll of %s" % c.label,
                    sample={"tracked_guard_locals": sorted(tracked), "site": c.where})
+    # a child (or a value it produced) dropped under the readiness lock deadlocks as soon as its destructor wakes a
+    # sibling: sub-wakers take the same non-reentrant lock
+    if not tracked:
+        return
+    pts = scan.user_drop_points(u.bi)
+    bad = []
+    anon = [b for b, _, l in pts if l is None]
+    for b, what, l in pts:
+        if l is None:
+            live = OUT[b][0] if b in OUT else set()
+        else:
+            # a Poll / Option wrapped state variable (`ret`) that is assigned constants as well as results is only
+            # known to hold a user value through a counting argument the rules of the family make (an overwritten
+            # `Ready(Some(..))` is a lost item there); this rule looks at values that certainly came from a child
+            leaves = scan.user_leaves(body.facts, body.locals[l]["ty"])
+            tk = body.facts.types[body.locals[l]["ty"]]
+            wrapper = tk["k"] == "adt" and scan.simple_name(tk.get("cpath")) in ("Poll", "Option", "Result", "ControlFlow")
+            if wrapper and not _only_call_defs(body, l):
+                continue
+            # path-correlated: is there a path on which the value is still initialised *and* a guard is held?
+            single = leaves == 1
+            states = scan.joint_init_at(body, tracked, l, single, [b])[b]
+            live = set()
+            for st in states:
+                if l in st:
+                    live |= (st & set(tracked))
+        if live:
+            bad.append("%s (%s) with guard %s held" % (what, u.bi.describe(b), ", ".join("_%d" % g for g in sorted(live))))
+    ctx.check(not bad, "C01.LOCK", u.where, "no child or child-produced value is dropped while the readiness guard is held", site=body.span, path=bad[:4],
+              sample={"drop_points": len(pts)})
 
 
 SKIP_TESTS = {
@@ -347,6 +395,9 @@ def live_premises(ctx, M, units, rule_id, with_globals=True):
     premises itself instead of only citing C01)."""
     std = M.config == "std"
     with ctx.renamed({"C01.*": rule_id}):
+        if not rule_id.startswith("C20."):
+            for u in units:
+                rule_scan(ctx, M, u)
         for u in units:
             if u.family in PASS_FAMILIES:
                 rule_route_pass(ctx, u)
@@ -373,6 +424,18 @@ def live_premises(ctx, M, units, rule_id, with_globals=True):
 
 
 PASS_FAMILIES = ("race", "race_ok", "chain")
+
+
+def rule_scan(ctx, M, u):
+    """C01.SCAN - Pending may only be returned after the scan looked at every child: a child whose wake-up is recorded
+    but which lies outside a truncated scan (`iter().take(k)`, `skip`, a shorter range) keeps its bit, nobody is woken
+    again, and the combinator sleeps on a ready child.  Delegates to the coverage / continuation rules of C20."""
+    if u.family == "chain":
+        return
+    from . import c20
+    with ctx.renamed({"C20.COVER": "C01.SCAN", "C20.CONT": "C01.SCAN"}):
+        c20.rule_cover(ctx, M, u)
+        c20.rule_cont(ctx, M, u)
 
 
 def rule_done(ctx, M, u):
